@@ -29,7 +29,7 @@ def r1_convert(run, F):
     b = F.body(PN + "::convert_for_head")
     m = None
     for mm in hirq.matches(b["hir"]):
-        if hirq.local_name_of(mm["scrut"]) == "self" and len(mm["arms"]) > 30:
+        if hirq.local_name_of(mm["scrut"]) == "self" and hirq.n_alts(mm) > 30:
             m = mm
     run.require(m is not None, "match self not found in convert_for_head")
     nodeid_variants = {}
@@ -256,6 +256,14 @@ def r3_build(run, F):
     det = "is_declaration call not found"
     if len(isd) == 1:
         o = origins.origins(bh["hir"], isd[0].get("recv") or isd[0]["a"][0], bh.get("params", ()))
+        if ("closureparam",) in o:
+            # iterator-adaptor form: `nodes.iter().enumerate().filter(|(_, node)| node.is_declaration())...`; the tested node is
+            # the item of the iterator the closure is handed to
+            for m in walk(bh["hir"]):
+                if m.get("k") in ("MethodCall", "Call") and any(a.get("k") == "Closure" and any(x is isd[0] for x in walk(a)) for a in m.get("a", [])):
+                    src = m.get("recv") or next((a for a in m.get("a", []) if a.get("k") != "Closure"), None)
+                    if src is not None:
+                        o = o | origins.origins(bh["hir"], src, bh.get("params", ()))
         calls = sorted(x[1].split("::")[-1] for x in o if x[0] == "call")
         steps = [n for n in walk(bh["hir"]) if n.get("k") == "AssignOp"]
         ok_scan = "enumerate" in calls and "iter" in calls and "index" not in calls and not steps
